@@ -14,9 +14,17 @@ if [ ! -x $ROOT/.bin/ovgen ] || [ $ROOT/tools/ovgen/main.go -nt $ROOT/.bin/ovgen
 fi
 GEN=$ROOT/.gen/$ID-$TIER
 mkdir -p $GEN
-$ROOT/.bin/ovgen -repo /repo -out $GEN || { echo "ovgen failed" >&2; exit 2; }
+OVFLAGS=""
+[ "$ID" = "C18" ] && OVFLAGS="-yields"   # scheduling points at every library function that touches a package-level variable
+$ROOT/.bin/ovgen -repo /repo -out $GEN $OVFLAGS || { echo "ovgen failed" >&2; exit 2; }
 # 2. checker, against /repo's working tree + overlay (build tag verif)
 BIN=$ROOT/.bin/vcheck-$ID-$TIER
 go build -tags verif -overlay $GEN/overlay.json -o $BIN ./cmd/vcheck || { echo "build of vcheck against /repo failed" >&2; exit 2; }
+if [ "$ID" = "C18" ]; then
+  # the same checker under the race detector, for the free-running pass (the cooperative scheduler's hand-offs
+  # are happens-before edges, so races are only visible without it)
+  CGO_ENABLED=1 go build -race -tags verif -overlay $GEN/overlay.json -o $BIN-race ./cmd/vcheck || { echo "race build of vcheck failed" >&2; exit 2; }
+  export VERIF_RACE_BIN=$BIN-race
+fi
 export VERIF_GEN=$GEN
 exec $BIN -tier "$TIER" "$@" "$ID"
